@@ -61,6 +61,21 @@ pub const ALPHABET: &[(char, &str)] = &[
     ('\n', "Cc"),
     ('\r', "Cc"),
     ('\t', "Cc"),
+    // the metacharacters of the pattern language as literal characters: written `\(` outside and mostly
+    // bare inside a character class, and present in subjects
+    ('(', "Ps"),
+    (')', "Pe"),
+    ('?', "Po"),
+    ('.', "Po"),
+    ('*', "Po"),
+    ('+', "Sm"),
+    ('|', "Sm"),
+    ('[', "Ps"),
+    (']', "Pe"),
+    ('{', "Ps"),
+    ('}', "Pe"),
+    ('^', "Sk"),
+    ('$', "Sc"),
 ];
 
 fn cat_of(c: char) -> Option<&'static str> {
